@@ -257,6 +257,11 @@ bool active() { return g_active; }
 int self() { return g_active ? t_self : -1; }
 const std::vector<TracePoint>& trace() { return g_trace; }
 int64_t nowNs() { return g_now; }
+bool othersBlocked() {
+  for (int i = 0; i < g_n; i++)
+    if (i != t_self && g_t[i].used && !g_t[i].finished && g_t[i].op != OP_CUSTOM && enabled(i)) return false;
+  return true;
+}
 
 std::string describeThreads() {
   std::string s;
@@ -587,6 +592,18 @@ ssize_t send(int fd, const void* buf, size_t n, int flags) {
   REAL(f, send_fn, "send");
   if (g_active && t_self >= 0) point(OP_STEP, "send");
   return f(fd, buf, n, flags);
+}
+// opening a file is a visible step (the drop-in watcher reads files another thread is rewriting)
+typedef FILE* (*fopen_fn)(const char*, const char*);
+FILE* fopen64(const char* path, const char* mode) {
+  REAL(f, fopen_fn, "fopen64");
+  if (g_active && t_self >= 0) point(OP_STEP, "fopen");
+  return f(path, mode);
+}
+FILE* fopen(const char* path, const char* mode) {
+  REAL(f, fopen_fn, "fopen");
+  if (g_active && t_self >= 0) point(OP_STEP, "fopen");
+  return f(path, mode);
 }
 typedef int (*close_fn)(int);
 int close(int fd) {
